@@ -627,3 +627,43 @@ Proof.
   - intros H; inversion H; subst. apply threads_ok_simple. simpl. intros a [<-|[]]; auto.
   - intros H; inversion H; subst; clear H. apply teardown_phase_threads_ok; reflexivity.
 Qed.
+
+(* ------------------------------------------------------------------ consequences read off the grammar (C06) *)
+Lemma npath_eqb_eq p q : npath_eqb p q = true -> p = q.
+Proof.
+  unfold npath_eqb. revert q. induction p as [|a p IH]; intros [|b q] H; simpl in H; try discriminate; auto.
+  apply andb_prop in H as [E1 E2]. apply Nat.eqb_eq in E1. subst. f_equal. auto.
+Qed.
+Lemma loc_eqb_eq a b : loc_eqb a b = true -> a = b.
+Proof. destruct a, b; simpl; intros H; try discriminate; auto; f_equal; apply npath_eqb_eq; auto. Qed.
+
+Lemma pstep_log_like l th q e q' l' d th' : pstep l th q e = Some q' -> log_like e = Some (l', d, th') -> l' = l /\ th' = th.
+Proof.
+  intros E Hl.
+  destruct e; simpl in Hl; try discriminate; inversion Hl; subst; simpl in E;
+    destruct (loc_eqb l' l) eqn:El; simpl in E; try discriminate;
+    destruct (npath_eqb th' th) eqn:Et; simpl in E; try discriminate;
+    (split; [apply loc_eqb_eq; auto|apply npath_eqb_eq; auto]).
+Qed.
+
+Lemma paccepts_log_like l th : forall evs q q', paccepts l th q evs = Some q' ->
+  forall e l' d th', In e evs -> log_like e = Some (l', d, th') -> l' = l /\ th' = th.
+Proof.
+  induction evs as [|e0 r IH]; simpl; intros q q' H e l' d th' Hin Hl; [tauto|].
+  destruct (pstep l th q e0) as [q1|] eqn:E; [|discriminate].
+  destruct Hin as [<-|Hin]; [eapply pstep_log_like; eauto|eapply IH; eauto].
+Qed.
+
+(* every log, check, url and attachment event that a task emits carries the task's own location and the identifier of the
+   thread that emitted it (and, by the grammar, the description of the step currently open in that thread) *)
+Theorem task_events_stay_home pr reg force t md setup_md o :
+  task_sem pr reg force t md setup_md = Some o ->
+  (forall e l' d th', In e (events_of (to_main o)) -> log_like e = Some (l', d, th') -> l' = task_loc t /\ th' = []) /\
+  (forall c e l' d th', In c (to_children o) -> In e (events_of (snd c)) -> log_like e = Some (l', d, th') ->
+      l' = task_loc t /\ th' = snd (fst c)).
+Proof.
+  intros H. pose proof (task_sem_threads_ok pr reg force t md setup_md o H) as [_ [q A] C]. split.
+  - intros e l' d th' Hin Hl. eapply paccepts_log_like; eauto.
+  - intros c e l' d th' Hc Hin Hl. unfold children_ok in C. rewrite Forall_forall in C.
+    destruct (C c Hc) as [q' [A' _]]. eapply paccepts_log_like; eauto.
+Qed.
